@@ -24,9 +24,8 @@ LabelChoices == {<<>>, <<"A">>, <<"A", "B">>}
 NextNode == Cardinality(Handles(G.nodes)) + 1
 RelCount == Len(SelectSeq(hist, LAMBDA r : r.op = "Rel"))
 
-Next ==
-  /\ ~Done /\ Len(hist) < MaxHist
-  /\ \/ /\ NextNode <= MaxNodes
+Build ==
+     \/ /\ NextNode <= MaxNodes
         /\ \E ls \in LabelChoices, p \in PropChoices("p"), stub \in BOOLEAN :
               /\ (stub => ls # <<>>)
               /\ AddNode(NextNode, ls, p, stub) /\ used' = (used \/ Uses(p))
@@ -50,8 +49,12 @@ Next ==
         /\ \E m \in {"", "p"} :
               /\ DeclareHier("hx", {"R"}, m, IF m = "" THEN {} ELSE {"sum", "max"}) /\ UNCHANGED used
               /\ H([op |-> "Hier", name |-> "hx", types |-> <<"R">>, measure |-> m, ops |-> IF m = "" THEN <<>> ELSE <<"sum", "max">>])
-     \/ /\ Handles(G.nodes) # {}
-        /\ UNCHANGED <<G, used>> /\ H([op |-> "RoundTrip"])
+
+\* a history ends with RoundTrip, at the latest as step MaxHist
+Next ==
+  /\ ~Done
+  /\ \/ Len(hist) < MaxHist - 1 /\ Build
+     \/ Handles(G.nodes) # {} /\ UNCHANGED <<G, used>> /\ H([op |-> "RoundTrip"])
 
 Spec == Init /\ [][Next]_vars
 View == <<G, used, Done>>
